@@ -1819,7 +1819,7 @@ impl Element {
                     if peek == '/'
                         || peek == '>'
                         || Ident::is_start_char(peek)
-                        || char::is_whitespace(peek)
+                        || super::is_template_whitespace(peek)
                     {
                         break;
                     }
@@ -2600,7 +2600,10 @@ impl CustomAttribute {
                 let pos = ps.position();
                 loop {
                     let Some(peek) = ps.peek::<0>() else { break };
-                    if peek == '>' || Ident::is_start_char(peek) || char::is_whitespace(peek) {
+                    if peek == '>'
+                        || Ident::is_start_char(peek)
+                        || super::is_template_whitespace(peek)
+                    {
                         break;
                     }
                     ps.next();
